@@ -499,6 +499,13 @@ func (f *Flow) Reach(q Query) ([]Pt, bool) {
 						known, val = true, true
 					} else if nonNilErrExpr(f.Info, rhs) {
 						known, val = true, false
+					} else if rid, isRID := rhs.(*ast.Ident); isRID {
+						// a copy of a variable whose nil-ness the path knows
+						if rv, isRV := f.Info.Uses[rid].(*types.Var); isRV && !rv.IsField() && isErrorType(rv.Type()) {
+							if old, has := facts[rv.Name()+" == nil@"+itoa(int(rv.Pos()))]; has {
+								known, val = true, old
+							}
+						}
 					}
 					if known {
 						if add == nil {
